@@ -120,6 +120,10 @@ def main():
         pid = p["id"]
         if pid in CLAIMED:
             level, tech, text, note, ref = CLAIMED[pid]
+            if pid in ("C05", "C08", "C09"):
+                tech += "; a `long` lane pushes more than 2^16 items through one pipe"
+            else:
+                tech += "; a `large` lane repeats the workload with lengths x10/x50/x250 and shapes beyond 2^8 / 2^16"
             checks.append({
                 "property_id": pid,
                 "quick_cmd": f"./check {pid} quick",
